@@ -187,4 +187,35 @@ theorem lex_ionum_op (n o s : Str) (hn : Plain n) (hd : n.all isDigitC = true) (
       simp only [List.head?_cons, Option.some.injEq] at hh
       rcases hh with hh | hh <;> subst hh <;> simp [emit, hd]
 
+/-- a word directly behind an operator run closes the run -/
+theorem lexGo_op_word (o w s : Str) (ho : o ≠ []) (hw : Plain w) :
+    lexGo true o (w ++ s) = .op o :: lexGo false [] (w ++ s) := by
+  obtain ⟨hne, hall⟩ := hw
+  cases w with
+  | nil => exact absurd rfl hne
+  | cons c w =>
+    have hc := hall c (by simp)
+    simp only [wordChar, Bool.and_eq_true, Bool.not_eq_true', bne_iff_ne, ne_eq] at hc
+    rw [List.cons_append, lexGo, lexGo]
+    simp only [hc.2, hc.1.1, hc.1.2, if_false, if_true, Bool.false_eq_true, List.nil_append]
+    cases o with
+    | nil => exact absurd rfl ho
+    | cons a o => simp [emit]
+
+/-- a word directly followed by one operator character that is not a redirection operator -/
+theorem lex_word_opchar (w s : Str) (c : Char) (hw : Plain w) (hc : isOpChar c = true)
+    (h1 : c ≠ '<') (h2 : c ≠ '>') :
+    lexGo false [] (w ++ c :: s) = .word w :: lexGo true [c] s := by
+  rw [lexGo_wordchars w [] _ hw.2, List.nil_append]
+  have hn : c ≠ '\n' := by intro e; subst e; simp [isOpChar] at hc
+  have hb : isBlank c = false := by
+    simp only [isOpChar, Bool.or_eq_true, beq_iff_eq] at hc
+    rcases hc with ((((((h|h)|h)|h)|h)|h)|h) <;> subst h <;> decide
+  rw [lexGo]
+  simp only [hn, hb, hc, if_true, if_false, Bool.false_eq_true]
+  have hw1 := hw.1
+  cases w with
+  | nil => exact absurd rfl hw1
+  | cons a w => simp [emit, h1, h2]
+
 end BrushVerif.Print
